@@ -147,7 +147,7 @@ class TLCResult:
     def coverage(self):
         """action name -> (distinct states found, states generated) from -coverage output"""
         cov = {}
-        for m in re.finditer(r"<(\w+) line \d+, col \d+ to line \d+, col \d+ of module (\w+)>: (\d+):(\d+)", self.out):
+        for m in re.finditer(r"^<(\w+) line \d+, col \d+ to line \d+, col \d+ of module (\w+)>: (\d+):(\d+)", self.out, re.M):
             name = m.group(1)
             a, b = int(m.group(3)), int(m.group(4))
             old = cov.get(name, (0, 0))
@@ -310,6 +310,12 @@ class Report:
     def mc(self, r: TLCResult, label):
         self.states += r.distinct
         self.transitions += r.generated
+        cov = r.coverage()
+        if cov:
+            acts = self.extra.setdefault("actions_fired", {})
+            for a, (d_, g_) in cov.items():
+                if a[:1].isupper() and a != "Init":
+                    acts[a] = acts.get(a, 0) + g_
         self.extra.setdefault("tlc_runs", []).append(
             {"run": label, "distinct_states": r.distinct, "states_generated": r.generated, "wall_s": round(r.wall, 1)})
 
